@@ -73,6 +73,8 @@ def respell_code(t, rng):
     t = re.sub(r' \| ', lambda m: pick([' | ', '|', '  |  ', '\n| ', ' |\t']), t)
     t = re.sub(r', ', lambda m: pick([', ', ',', ' , ', ',\n  ']), t)
     t = re.sub(r'\( *', lambda m: pick(['(', '( ']), t)
+    t = re.sub(r'\)', lambda m: pick([')', ' )', '\n)']), t)
+    t = re.sub(r'!(?!=)', lambda m: pick(['!', '! ']), t)
     t = re.sub(r' (?=[^ ])', lambda m: pick([' ', ' ', '  ', '\t', ' \n ']), t)
     return t, choices
 
@@ -249,6 +251,48 @@ def explore(ctx):
         if sexp.dumps(r) != mcanon[qi]:
             failures.append({'kind': 'corr', 'what': 'the grammar model reads two spellings of one query differently',
                              'payload': {'query': q2, 'canonical_spelling': base[qi][0]}})
+    # filters: whitespace runs between keywords, inside parentheses, quote style
+    from props import c02
+    flines = ['error a.b x-y\n', 'warn GET /index two words\n', 'ERROR foo_bar a*b x(y)\n', 'nothing here\n', 'Error user@host [z]\n']
+    finp = ''.join(flines).encode('utf8')
+    fjobs = []
+    fmeta = []
+    for i in range(120 if quick else 2500):
+        f = c02.gen_filter(rng, 3)
+        try:
+            canon_q = qast.filter_text(f) + ' | count'
+        except (ValueError, TypeError):
+            continue
+        fjobs.append((canon_q, finp, 'json', ()))
+        fmeta.append((i, canon_q, True))
+        for k in range(3):
+            parts = split_strings(canon_q)
+            out = []
+            for is_str, t in parts:
+                if is_str:
+                    body = t[1:-1]
+                    if t[0] == '"' and "'" not in body and '\\' not in body and rng.random() < 0.5:
+                        t = "'" + body + "'"
+                    out.append(t)
+                else:
+                    t = re.sub(r'\(', lambda m: rng.choice(['(', '( ', '(  ']), t)
+                    t = re.sub(r'\)', lambda m: rng.choice([')', ' )', '\t)']), t)
+                    t = re.sub(r' (?=[^ ])', lambda m: rng.choice([' ', '  ', '\t', ' \n ']), t)
+                    out.append(t)
+            fjobs.append((''.join(out), finp, 'json', ()))
+            fmeta.append((i, ''.join(out), False))
+    fouts = aglib.run_impl_many(fjobs)
+    fcanon = {}
+    for (i, q2, is_canon), o in zip(fmeta, fouts):
+        if is_canon:
+            fcanon[i] = o
+            continue
+        ref = fcanon[i]
+        if o['rc'] != ref['rc'] or o['out'] != ref['out']:
+            failures.append({'kind': 'spec', 'what': 'two spellings of one filter give different results (rc %s vs %s)' % (ref['rc'], o['rc']),
+                             'payload': {'query': q2, 'canonical_spelling': [m for m in fmeta if m[0] == i][0][1], 'input_lines': flines,
+                                         'output': o['out'].decode('utf8', 'replace')[:300], 'canonical_output': ref['out'].decode('utf8', 'replace')[:300],
+                                         'stderr': o['err'].decode('utf8', 'replace')[-300:]}})
     # aliases versus their expansions
     alias_cases = [('* | apache', '* | parse "* - * [*] \\"* * *\\" * *" as ip, name, timestamp, method, url, protocol, status, contentlength'),
                    ('* | nginx | count by status', None), ('* | testmultioperator', '* | json | count')]
@@ -282,10 +326,10 @@ def explore(ctx):
     os.remove(fpath)
     os.rmdir(tmpd)
     cov = {
-        'evaluations': len(jobs) + len(sample) + cli_checked + len(alias_cases), 'distinct_nontrivial': len(nontrivial),
+        'evaluations': len(jobs) + len(sample) + cli_checked + len(alias_cases) + len(fjobs), 'filter_spellings': len(fjobs), 'distinct_nontrivial': len(nontrivial),
         'rule': '%d query ASTs, each in %d spellings drawn by rewriting the canonical text outside string literals: whitespace runs / no whitespace where optional / line breaks, quote style, '
                 'avg/average, pNN/pctNN/percentileNN, !=/<>, and/&&, or/||, asc/ascending/(none), desc/dsc/descending, fields +/only/include/(none) and -/except/drop, bare limit vs limit 10, '
-                'count vs count as _count, explicit default names for every aggregate/timeslice/total, ["name"] vs bare name, from before/after as, redundant parentheses, sort by x vs sort by x asc; byte comparison of -o json output; aliases vs expansions; --format vs -o format=, --file vs stdin; the grammar model on the same spellings; '
+                'count vs count as _count, explicit default names for every aggregate/timeslice/total, ["name"] vs bare name, from before/after as, redundant parentheses, whitespace inside parentheses and after `!`, sort by x vs sort by x asc; byte comparison of -o json output; aliases vs expansions; --format vs -o format=, --file vs stdin; the grammar model on the same spellings; '
                 'non-trivial = >= 3 spelling choices exercised' % (len(base), nsp),
         'samples': [{'canonical': base[0][0], 'spelling': meta[1][1]}, {'canonical': base[1][0], 'spelling': meta[nsp + 2][1]}],
         'spellings': len(jobs) - len(base), 'cli_cases': cli_checked,
